@@ -21,33 +21,42 @@ use syn::visit::{self, Visit};
 // cli
 // ------------------------------------------------------------------------------------------------
 
-fn finish(r: incan::cli::CliResult<incan::cli::ExitCode>) -> ! {
+fn finish(r: Result<i32, String>) -> ! {
     match r {
-        Ok(code) => std::process::exit(code.0),
-        Err(e) => {
-            if !e.message.is_empty() {
-                eprintln!("{}", e.message);
-            }
-            std::process::exit(e.exit_code.0)
+        Ok(code) => std::process::exit(code),
+        Err(p) => {
+            eprintln!("panic: {}", p);
+            std::process::exit(101)
         }
     }
 }
 
-pub fn cli(args: &[String]) -> ! {
+/// Run one command the way `incan::cli::run` would (message to stderr, exit code returned).
+fn one(cmd: &str, args: &[String]) -> Result<i32, String> {
     use incan::cli::commands;
-    let cmd = args.first().map(|s| s.as_str()).unwrap_or("");
-    let a1 = args.get(1).cloned().unwrap_or_default();
-    match cmd {
-        "check" => finish(commands::check_file(&a1)),
-        "emit" => finish(commands::emit_rust(&a1, false)),
-        "emit-strict" => finish(commands::emit_rust(&a1, true)),
-        "build" => {
-            let out = args.get(2).cloned();
-            finish(commands::build_file(&a1, out.as_ref()))
+    let a1 = args.first().cloned().unwrap_or_default();
+    let conv = |r: incan::cli::CliResult<incan::cli::ExitCode>| -> i32 {
+        match r {
+            Ok(code) => code.0,
+            Err(e) => {
+                if !e.message.is_empty() {
+                    eprintln!("{}", e.message);
+                }
+                e.exit_code.0
+            }
         }
-        "fmt-diff" => finish(commands::format_files(&a1, false, true)),
-        "fmt-check" => finish(commands::format_files(&a1, true, false)),
-        "test" => finish(incan::cli::test_runner::run_tests(&a1, true, false, false, None, false, false)),
+    };
+    crate::common::catch(|| match cmd {
+        "check" => conv(commands::check_file(&a1)),
+        "emit" => conv(commands::emit_rust(&a1, false)),
+        "emit-strict" => conv(commands::emit_rust(&a1, true)),
+        "build" => {
+            let out = args.get(1).cloned();
+            conv(commands::build_file(&a1, out.as_ref()))
+        }
+        "fmt-diff" => conv(commands::format_files(&a1, false, true)),
+        "fmt-check" => conv(commands::format_files(&a1, true, false)),
+        "test" => conv(incan::cli::test_runner::run_tests(&a1, true, false, false, None, false, false)),
         "collector" => {
             let p = Path::new(&a1);
             let mut c = incan::frontend::module::ModuleCollector::new(p);
@@ -56,21 +65,60 @@ pub fn cli(args: &[String]) -> ! {
                     for m in mods {
                         println!("{}", m.path.file_name().and_then(|s| s.to_str()).unwrap_or("?"));
                     }
-                    std::process::exit(0)
+                    0
                 }
                 Err(errs) => {
                     for e in errs {
                         eprintln!("{}", e.message);
                     }
-                    std::process::exit(1)
+                    1
                 }
             }
         }
         _ => {
             eprintln!("c12 cli: unknown command {:?}", cmd);
-            std::process::exit(2)
+            2
         }
+    })
+}
+
+pub fn cli(args: &[String]) -> ! {
+    let cmd = args.first().map(|s| s.as_str()).unwrap_or("");
+    finish(one(cmd, if args.len() > 1 { &args[1..] } else { &[] }))
+}
+
+/// Many commands in ONE process (one hash-seed universe per process): stdin lines
+/// `{"cmd":..,"args":[..]}`; output of command i is bracketed by `@@C12-BEGIN i` / `@@C12-END i rc`
+/// on both stdout and stderr.
+fn cli_batch() -> ! {
+    use std::io::{BufRead, Write};
+    let stdin = std::io::stdin();
+    let mut i = 0usize;
+    for line in stdin.lock().lines() {
+        let Ok(line) = line else { break };
+        if line.trim().is_empty() {
+            continue;
+        }
+        let v: serde_json::Value = serde_json::from_str(&line).unwrap_or(serde_json::Value::Null);
+        let cmd = v["cmd"].as_str().unwrap_or("").to_string();
+        let args: Vec<String> = v["args"].as_array().map(|a| a.iter().filter_map(|x| x.as_str().map(|s| s.to_string())).collect()).unwrap_or_default();
+        println!("@@C12-BEGIN {}", i);
+        eprintln!("@@C12-BEGIN {}", i);
+        let rc = match one(&cmd, &args) {
+            Ok(c) => c,
+            Err(p) => {
+                eprintln!("panic: {}", p);
+                101
+            }
+        };
+        println!();
+        println!("@@C12-END {} {}", i, rc);
+        eprintln!();
+        eprintln!("@@C12-END {} {}", i, rc);
+        let _ = std::io::stdout().flush();
+        i += 1;
     }
+    std::process::exit(0)
 }
 
 // ------------------------------------------------------------------------------------------------
@@ -1063,6 +1111,7 @@ pub fn run(args: &[String]) {
             std::process::exit(scan(&repo));
         }
         "cli" => cli(&args[1..]),
+        "cli-batch" => cli_batch(),
         other => {
             eprintln!("c12: unknown mode {:?} (scan|cli)", other);
             std::process::exit(2);
